@@ -12,9 +12,11 @@ import time
 VERIF = os.path.dirname(os.path.dirname(os.path.abspath(__file__)))
 REPO = os.environ.get('VERIF_REPO', '/repo')
 SPEC = os.path.join(VERIF, 'spec')
-WORK = os.path.join(VERIF, 'work')
-TARGET = os.path.join(VERIF, 'target')
-EVID = os.path.join(VERIF, 'evidence')
+# (the three overrides exist for bin/try-mutant-wt: a seeded change is checked in a scratch worktree, with its own build
+# and scratch directories, without touching /repo or the committed evidence)
+WORK = os.environ.get('VERIF_WORK') or os.path.join(VERIF, 'work')
+TARGET = os.environ.get('VERIF_TARGET') or os.path.join(VERIF, 'target')
+EVID = os.environ.get('VERIF_EVID') or os.path.join(VERIF, 'evidence')
 TLA_JAR = '/opt/veriftools/tla/tla2tools.jar'
 TLA_CP = TLA_JAR + ':/opt/veriftools/tla/CommunityModules-deps.jar'
 REDO_NAMES = ['redo', 'redo-ifchange', 'redo-ifcreate', 'redo-always', 'redo-stamp', 'redo-log',
